@@ -186,6 +186,68 @@ def run(tier):
                 res.add_violation("default-set:" + fe, "%s with no flags enables %d checkers, the documented default has %d; diff=%s" % (b, len(got), len(default), sorted(set(got) ^ set(default))[:8]), case)
         if len(res.samples) < 4:
             res.sample({"binary": b, "argv": argv(v, fe), "enabled_observed": len(got), "enabled_expected": len(want), "rc": rc})
+    # inertness differential: the parameters of every *unselected* checker are set to non-default values;
+    # the diagnostics of the one selected checker must not move
+    tdir = os.path.join(ws, "b", "big")
+    open(os.path.join(tdir, "probe_test.go"), "w").write('''package big
+
+import "testing"
+
+type bigRec struct{ a [600]byte }
+
+func TestProbe(t *testing.T) {
+	var xs []bigRec
+	for _, x := range xs {
+		_ = x
+	}
+	var arr [600]byte
+	for i, y := range arr {
+		_, _ = i, y
+	}
+}
+
+func (r bigRec) Exported() (int, int) { return 0, 0 }
+''')
+    with_params = [i for i in infos if i["params"] and i["name"] != "ruleguard"]
+
+    def hostile(v):
+        if isinstance(v, bool):
+            return str(not v).lower()
+        if isinstance(v, int):
+            return str(1 if v != 1 else 2)
+        return None
+
+    ijobs = []
+    for sel in with_params:
+        others = []
+        for o in with_params:
+            if o["name"] == sel["name"]:
+                continue
+            for pn, pv in o["params"].items():
+                hv = hostile(pv)
+                if hv is not None:
+                    others.append("-@%s.%s=%s" % (o["name"], pn, hv))
+        for b, fe in fronts:
+            if tier == "quick" and b == "gocritic":
+                continue
+            base = ["check", "-enable=" + sel["name"]] if fe == "cli" else ["-enable=" + sel["name"], "-disable="]
+            ijobs.append((sel["name"], b, fe, base, others))
+
+    def inert(job):
+        name, b, fe, base, others = job
+        rc1, so1, se1 = vlib.sh([os.path.join(bins, b)] + base + ["./b/big"], cwd=ws, timeout=300)
+        rc2, so2, se2 = vlib.sh([os.path.join(bins, b)] + base + others + ["./b/big"], cwd=ws, timeout=300)
+        return job, (rc1, sorted(DIAG_RE.findall(se1)), se1), (rc2, sorted(DIAG_RE.findall(se2)), se2)
+
+    for (name, b, fe, base, others), r1, r2 in vlib.parallel(inert, ijobs):
+        res.count("inertness_differential_runs", 2)
+        if r1[1]:
+            res.put("inertness_selected_checkers_with_output", name)
+        if (r1[0], r1[1]) != (r2[0], r2[1]):
+            l1 = set(l for l in r1[2].splitlines() if DIAG_RE.match(l))
+            l2 = set(l for l in r2[2].splitlines() if DIAG_RE.match(l))
+            res.add_violation("unselected-params-not-inert:%s:%s" % (fe, name), "%s -enable=%s: setting parameters of unselected checkers changes the output (%d -> %d lines), e.g. %s" % (b, name, len(r1[1]), len(r2[1]), sorted(l1 ^ l2)[:2]),
+                              {"binary": b, "selected": name, "base_argv": base, "extra_params": others, "only_default": sorted(l1 - l2)[:5], "only_with_params": sorted(l2 - l1)[:5]})
     feasible = len(cover)
     twice = sum(1 for c in cover.values() if c >= 2)
     cov = {
